@@ -85,9 +85,13 @@ def run(ctx, pid, names, profile, rule):
     want = profile.get('finale', ['drain', 'settle'])
     runners = []
     reported = set()
-    for h in range(n):
-        cfg = gen_cfg(rng, profile)
-        ops = hist.gen_history(rng, cfg, rng.choice(profile.get('lengths', [8, 15, 25])), profile.get('weights'), profile.get('max_sessions', 4))
+    fixed = list(profile.get('fixed', []))
+    for h in range(n + len(fixed)):
+        if h < len(fixed):
+            cfg, ops = hist.Cfg(), fixed[h]
+        else:
+            cfg = gen_cfg(rng, profile)
+            ops = hist.gen_history(rng, cfg, rng.choice(profile.get('lengths', [8, 15, 25])), profile.get('weights'), profile.get('max_sessions', 4))
         for kind in profile.get('kinds', ('threaded', 'asyncio')):
             try:
                 r, vs = evaluate(kind, cfg, ops, names, want, seed=h)
